@@ -212,7 +212,9 @@ func (m *c15model) unuse(hs []*c15handler, alias bool) {
 }
 
 // chain renders the marks a call must produce for the given lists.
-func c15chain(outer, inner []string, short string) []string { return c15chainP(outer, inner, short, false) }
+func c15chain(outer, inner []string, short string) []string {
+	return c15chainP(outer, inner, short, false)
+}
 
 // c15chainP: with panicInner the built-in handler panics and the panic is turned into an error between the inner
 // and the outer layer (the service does that between its invoke and its IO handlers): the inner handlers are left by
